@@ -294,3 +294,52 @@ func VxC11RestoreFollow() {
 		vx.Assert("follow-restore-leaves-database-and-sidecar", vx.FSExists(out) && vx.FSExists(out+"-txid") && !vx.FSFileDirty(out))
 	}
 }
+
+// vxFollowStore: a replica holding real encoded files that ends the follow loop
+// after a number of polls.
+type vxFollowStore struct {
+	vxStoreClient
+	polls    int
+	maxPolls int
+	cancel   context.CancelFunc
+}
+
+func (c *vxFollowStore) LTXFiles(ctx context.Context, level int, seek ltx.TXID, useMetadata bool) (ltx.FileIterator, error) {
+	if level == 0 {
+		c.polls++
+		if c.polls > c.maxPolls {
+			c.cancel()
+		}
+	}
+	return c.vxStoreClient.LTXFiles(ctx, level, seek, useMetadata)
+}
+
+// VxC11FollowFlush: the real follow loop with the real applyNewLTXFiles,
+// fillFollowGap and applyLTXFile over a replica in which each of the TXIDs after
+// the follower's position sits at level 0, 1 or 2 (contiguous level 0, a gap
+// bridged in one go, a gap bridged over several polls): the sidecar vouches for
+// the database's position, so whenever it is published the database file holds no
+// unflushed write, and the loop leaves the database flushed.
+func VxC11FollowFlush() {
+	n := vx.Param("N", 3)
+	dir := vx.TempDir()
+	out := dir + "/follow.db"
+	vx.FSWriteFile(out, vxDBImage(2, 0))
+	vx.FSWriteFile(out+"-txid", []byte(ltx.TXID(1).String()+"\n"))
+	c := &vxFollowStore{maxPolls: n + 1}
+	for t := 2; t <= 1+n; t++ {
+		lvl := vx.Choose("levelOf", 0, 2)
+		c.put(&vxLTX{level: lvl, min: ltx.TXID(t), max: ltx.TXID(t), commit: 2, ts: int64(1000 + t), pages: []vxPg{{pgno: 2, tag: uint64(t)}}})
+	}
+	ctx, cancel := context.WithCancel(context.Background())
+	c.cancel = cancel
+	r := NewReplicaWithClient(nil, c)
+	vx.FSPublishGuard(out+"-txid", out)
+	vxApplyRecord = false
+	err := r.follow(ctx, out, 1, time.Millisecond)
+	vx.Assert("follow-ends-without-error", err == nil)
+	vx.Assert("sidecar-published-only-beside-a-flushed-database", vx.FSEvents("publish-beside-unsynced-file") == 0)
+	vx.Assert("follow-leaves-the-database-flushed", !vx.FSFileDirty(out))
+	side, rerr := ReadTXIDFile(out)
+	vx.Assert("follower-caught-up", rerr == nil && int(side) == 1+n)
+}
